@@ -2,14 +2,9 @@
 """Regenerates /verif/MANIFEST.json from the table below (keep in sync with DESIGN.md section 4)."""
 import json, subprocess, os
 V = '/verif'
-claimed = {
- # id: (technique, level text, level note, design ref)
- 'C01': ("predicate-abstraction dataflow over go/cfg (finite transition relation of the claim handlers vs SWIM table) + writer-set and lock-held checks over the typed AST",
-         "Sound static check of named structural clauses, exhaustive over a finite abstraction: the three claim handlers' complete abstract transition relation (record found x prior state x incarnation order x self x leaving x address/reclaim/allow-list atoms) is extracted from their control-flow graphs and must lie inside the SWIM precedence table (may-rows), accept paths must be complete (must-rows), the set of functions that can write a record/table is closed, every effect happens under the node write lock, and the push/pull merge maps remote states to the right handler with the right accuser. Not a proof of the behavioural statement over histories: induction over deliveries is argued in DESIGN.md, not machine-checked.",
-         "Trusted: go/types + go/cfg; the canonicaliser (unrecognised conditions become unconstrained atoms, which can only add reports); time.Since/StateChange measure age; delegate and msgpack behaviour; suspicion-timer invariant discharged under C06.",
-         "DESIGN.md §3 C01"),
-}
-not_built = {}
+import sys; sys.path.insert(0, V + '/tools')
+from claims import CLAIMS as claimed
+not_builtnot_built = {}
 reasons_na = {
  'C05': "liveness of a randomised distributed protocol over fault histories: no clause beyond C01/C02 (claimed separately) is visible in the shape of the code; static analysis cannot bound schedules or elapsed time",
 }
